@@ -40,6 +40,9 @@ func floatFromHex(h string) float64 {
 }
 
 func hexOfFloat(f float64) string {
+	if math.IsNaN(f) {
+		return "7ff8000000000001" // all NaNs are one value
+	}
 	return fmt.Sprintf("%016x", math.Float64bits(f))
 }
 
